@@ -5,6 +5,11 @@ or a type-checked structural rewrite.
 Every instance is recorded in the woven file (original text base64 in the marker) and
 listed in the evidence."""
 SHIMS = {
+    # draw(): data.chars().map(CLOSURE).collect::<String>()  -> str_map_collect(data, CLOSURE); closure stays in verified text
+    'str-map-open': dict(pattern=r'\bdata\s*\.chars\(\)\s*\.map\((?=\|c\|)', replace=r'str_map_collect(data, ', spec='elementwise map over the characters, see str_map_collect'),
+    'str-map-close': dict(pattern=r'\)\s*\.collect::<String>\(\)(?=;)', replace=r')', spec='(closing half of str-map)'),
+    # last.data.nfc().collect::<String>() + &char.to_string()
+    'nfc-append': dict(pattern=r'last\.data\.nfc\(\)\.collect::<String>\(\) \+ &char\.to_string\(\)', replace=r'nfc_append(&last.data, char)', spec='r@ == nfc(s@) + [c] (nfc uninterpreted)'),
     # type ascription only (rustc re-checks it): the woven invariants mention `result@[i]@` before inference has fixed the element type
     'vec-new-string': dict(pattern=r'let mut result = Vec::new\(\);', replace=r'let mut result: Vec<String> = Vec::new();', spec='type ascription; no spec'),
     # display(): is the first character of the cell text double-width?
